@@ -139,6 +139,10 @@ fn server_history(rec: &mut Rec, ctx: &Ctx, idx: u64, rng: &mut ChaCha20Rng) {
   let mut p = [false; 256];
   let mut hist: Vec<u8> = Vec::new();
   let (pt, _) = Client::blind(b"attacker input");
+  // replicas that keep their state between imports (key-sync between servers):
+  // one re-synced at every position, one lagging (every 3rd position)
+  let mut replica_every = Server::new(vec![rng.gen::<u8>()]).ok();
+  let mut replica_lagging = Server::new(vec![rng.gen::<u8>()]).ok();
   // export at every position of the history (incl. before the first puncture)
   for pos in 0..=steps {
     if pos > 0 {
@@ -214,6 +218,38 @@ fn server_history(rec: &mut Rec, ctx: &Ctx, idx: u64, rng: &mut ChaCha20Rng) {
     }
     if !view_ok(rec, &iv, &shadow, &p, "imported", &hist) {
       return;
+    }
+    // the same export imported into replicas that already hold an earlier state
+    for (which, lag, rep) in [("replica-every-position", 1usize, &mut replica_every), ("replica-lagging", 3usize, &mut replica_lagging)] {
+      if pos % lag != 0 {
+        continue;
+      }
+      if let (Some(r), Ok(st)) = (rep.as_mut(), bincode::deserialize::<ServerKeyState>(&bytes)) {
+        r.set_private_key(st);
+        rec.ev("replica_resyncs");
+        let rv = node_view(r);
+        if rv != live {
+          rec.violation(
+            &format!("importer-view-differs:{}", which),
+            format!("a replica that already held an earlier state and imports the current export ({}) does not hold the exporter's key material", which),
+            json!({"history": hist, "exporter_nodes": live.len(), "replica_nodes": rv.len()}),
+          );
+          return;
+        }
+        if !view_ok(rec, &rv, &shadow, &p, which, &hist) {
+          return;
+        }
+        for x in 0..256usize {
+          if p[x] && r.eval(&pt, x as u8, false).is_ok() {
+            rec.violation(
+              "attacker-evaluates-punctured-tag",
+              format!("a replica re-synced from the post-puncture state ({}) evaluates punctured tag {}", which, x),
+              json!({"tag": x, "history": hist}),
+            );
+            return;
+          }
+        }
+      }
     }
     // attacker run: the party holding the post-puncture state evaluates every punctured tag
     for x in 0..256usize {
